@@ -25,6 +25,7 @@ func runC16(c *Ctx) {
 		"C16.2 a local deregistration marks the entry Deleted and keeps it; the entry disappears only in the push function's success edge; every Deleted entry is pushed at every sync",
 		"C16.3 the remote/local diff only ever clears in-sync flags or sets them from an IsSame comparison",
 		"C16.4 the push functions run with the state lock held",
+		"C16.7 a callback that runs later (timer, goroutine) and changes an entry's sync state looks the entry up again under the lock; it does not write through an entry pointer captured when it was created (entries are replaced by clones on update)",
 		"C16.6 an in-sync flag is set to true only on the entry the push function was called for, or on entries taken from the very list that was sent in the request — never on entries selected by scanning the local table",
 		"C16.5 a failed or paused full sync leads to the retry state, never to partial sync",
 	}
@@ -409,6 +410,7 @@ func checkSyncerFSM(c *Ctx) {
 	r.Floor("C16.5", 1)
 	_ = n
 	checkInSyncProvenance(c)
+	checkCallbacksRelookup(c)
 }
 
 // C16.6
@@ -531,4 +533,58 @@ func checkInSyncProvenance(c *Ctx) {
 		}
 	}
 	r.Floor("C16.6", 7)
+}
+
+// C16.7
+func checkCallbacksRelookup(c *Ctx) {
+	p, r := c.P, c.R
+	n := 0
+	for _, f := range p.SrcFuncs("agent/local") {
+		if f.Parent() == nil {
+			continue
+		}
+		bad := ""
+		writes := 0
+		for _, b := range f.Blocks {
+			for _, in := range b.Instrs {
+				st, ok := in.(*ssa.Store)
+				if !ok {
+					continue
+				}
+				fa, ok := st.Addr.(*ssa.FieldAddr)
+				if !ok {
+					continue
+				}
+				nt := core.NamedOf(fa.X.Type())
+				if nt == nil || (nt.Obj().Name() != "CheckState" && nt.Obj().Name() != "ServiceState") {
+					continue
+				}
+				writes++
+				// the entry written: looked up here, or captured?
+				captured := false
+				for _, leaf := range core.Leaves(fa.X, core.SliceOpts{StopAt: func(v ssa.Value) bool { _, isLk := v.(*ssa.Lookup); return isLk }}) {
+					switch leaf.(type) {
+					case *ssa.FreeVar:
+						captured = true
+					}
+				}
+				if _, isLookup := fa.X.(*ssa.Lookup); isLookup {
+					captured = false
+				}
+				if captured {
+					bad = fmt.Sprintf("field %s of a captured %s is assigned at %s", core.FieldObj(fa).Name(), nt.Obj().Name(), p.Pos(st.Pos()))
+				}
+			}
+		}
+		if writes == 0 {
+			continue
+		}
+		n++
+		if bad != "" {
+			r.Violate("C16.7", core.FuncName(f), p.FuncPos(f), bad+": the callback runs after the entry may have been replaced (every update installs a clone), so it changes an orphaned object; the live entry keeps its in-sync flag and pending-deferral marker and is never pushed again")
+		} else {
+			r.Hold("C16.7", core.FuncName(f), p.FuncPos(f), "the callback looks the entry up again before changing it")
+		}
+	}
+	r.Floor("C16.7", 1)
 }
